@@ -18,7 +18,7 @@ from vlib import Check
 
 SPEC = "spec/gfx"
 GEN_FILE = os.path.join(vlib.GEN, "rip_cases.ndjson")
-SHARDS = 4
+PROCS = 4          # parallel driver / TLC processes (shared machine)
 
 
 def key(v, ev):
@@ -36,6 +36,54 @@ def gen():
     return vlib.generate(SPEC, "MC_Rip", "Gen_Rip.cfg", GEN_FILE)
 
 
+def _contained(out_path, extra, case_timeout=8, mem_mb=2048, max_crashes=6, overall_timeout=3000):
+    """vlib.run_contained_indexed with a small budget of worker kills: a lexer that stalls or aborts does so on whole classes
+    of cases, and every kill costs `case_timeout` seconds - after `max_crashes` of them the shard stops (the verdict is a
+    violation anyway; the trace says where it stopped).  Same `crash` event format."""
+    import subprocess
+    start, crashes, t0 = 0, [], time.time()
+    progress = out_path + ".progress"
+    if os.path.exists(out_path):
+        os.remove(out_path)
+    base = [vlib.BIN, "rip"] + [str(x) for x in extra]
+    env = dict(os.environ, VERIF_REPO=vlib.REPO, RUST_BACKTRACE="0")
+    while True:
+        if time.time() - t0 > overall_timeout:
+            raise vlib.ToolError("driver rip exceeded the overall time limit")
+        p = subprocess.run(base + ["--out", out_path, "--start", str(start), "--progress", progress, "--case-timeout", str(case_timeout), "--mem-mb", str(mem_mb)],
+                           cwd=vlib.ROOT, stdout=subprocess.DEVNULL, stderr=subprocess.PIPE, text=True, errors="replace", env=env, timeout=overall_timeout)
+        if p.returncode == 0:
+            for l in p.stderr.splitlines()[-1:]:
+                vlib.log("[drive] " + l)
+            break
+        try:
+            k, what = open(progress).read().split()[:2]
+            k = int(k)
+        except Exception:
+            vlib.log(p.stderr[-3000:])
+            raise vlib.ToolError(f"driver rip died without a progress record (exit {p.returncode})")
+        if what == "done":
+            break
+        kind = "timeout" if what == "timeout" else "abort"
+        msg = "timeout" if kind == "timeout" else vlib.classify_stderr(p.stderr)
+        d = subprocess.run(base + ["--dump-case", str(k)], cwd=vlib.ROOT, stdout=subprocess.PIPE, stderr=subprocess.DEVNULL, text=True, env=env)
+        try:
+            cse = json.loads(d.stdout.strip().splitlines()[-1])
+        except Exception:
+            cse = {}
+        rec = {"ev": "crash", "case": str(k), "emu": "rip", "seed": cse.get("seed", "?"), "kind": kind, "msg": msg, "sig": p.returncode,
+               "n": len(cse.get("bytes", [])), "detail": p.stderr[-400:].replace("\n", " | ")}
+        with open(out_path, "a") as f:
+            f.write(json.dumps(rec, separators=(",", ":")) + "\n")
+        crashes.append(dict(rec, input=cse))
+        vlib.log(f"[drive] rip case {k} ({cse.get('seed')}) killed the worker: {kind}/{msg}")
+        start = k + 1
+        if len(crashes) >= max_crashes:
+            vlib.log(f"[drive] rip: {len(crashes)} worker kills in this shard - not driving its remaining cases")
+            break
+    return crashes
+
+
 def run_into(c, thorough=None):
     if thorough is None:
         thorough = c.tier == "thorough"
@@ -46,18 +94,18 @@ def run_into(c, thorough=None):
     n_cmds = sum(1 for r in rows if r.get("t") == "cmd")
     n_paths = len({tuple(r["s"]) for r in rows if r.get("t") != "cmd"})
     tier = "thorough" if thorough else "quick"
+    shards = 8 if thorough else 4          # trace files of at most ~2.5 M events: larger ones make TLC's JSON heap thrash
 
     def one(k):
         trace = os.path.join(c.workdir, f"rip-{k}.ndjson")
-        crashes = vlib.run_contained_indexed("rip", trace, extra=["--seed", c.seed, "--tier", tier, "--gen", GEN_FILE, "--shard", k, "--shards", SHARDS],
-                                             case_timeout=8, mem_mb=2048)
+        crashes = _contained(trace, ["--seed", c.seed, "--tier", tier, "--gen", GEN_FILE, "--shard", k, "--shards", shards])
         return trace, crashes
-    with ThreadPoolExecutor(max_workers=SHARDS) as ex:
-        res = list(ex.map(one, range(SHARDS)))
+    with ThreadPoolExecutor(max_workers=PROCS) as ex:
+        res = list(ex.map(one, range(shards)))
     traces = [t for t, _ in res]
     crashes = [x for _, cr in res for x in cr]
     t1 = time.time()
-    results = c.validate(SPEC, "Trace_Rip", "Trace_Rip.cfg", traces, key, procs=SHARDS, timeout=3000)
+    results = c.validate(SPEC, "Trace_Rip", "Trace_Rip.cfg", traces, key, procs=PROCS, timeout=3000)
     # attach the input of a case that killed / stalled the worker to its violation (for the replay file)
     by_case = {(os.path.basename(t), str(cr["case"])): cr for (t, crs) in res for cr in crs}
     for v in c.viols:
